@@ -185,7 +185,7 @@ func (c *FnCtx) findLoops() {
 	}
 	// sanity: every loop clause refers to an existing loop
 	for _, cl := range c.fc.Clauses {
-		if (cl.Kind == "invariant" || cl.Kind == "decreases" || cl.Kind == "unfold") && (cl.Loop < 1 || cl.Loop > len(heads)) {
+		if (cl.Kind == "invariant" || cl.Kind == "decreases" || cl.Kind == "unfold" || cl.Kind == "step") && (cl.Loop < 1 || cl.Loop > len(heads)) {
 			panic(specErr{fmt.Sprintf("loop %d does not exist (function has %d loops)", cl.Loop, len(heads))})
 		}
 	}
@@ -561,13 +561,35 @@ func (c *FnCtx) flow(st *State, from, to *ssa.BasicBlock, cond string) {
 		bst := st.clone()
 		bst.reach = c.define("reach", sBool, full)
 		env := c.loopEnv(bst)
+		// back edges are told apart by the last source line executed before them
+		via := ""
+		for k := len(from.Instrs) - 1; k >= 0 && via == ""; k-- {
+			if p := from.Instrs[k].Pos(); p.IsValid() {
+				via = "@" + c.eng.srcLine(p)
+			}
+		}
+		if len(to.Preds) <= 2 {
+			via = ""
+		}
 		for i, cl := range c.loopClauses(li, "invariant") {
 			name := cl.Name
 			if name == "" {
 				name = fmt.Sprint(i + 1)
 			}
+			name += via
 			c.oblige(bst, "inv.keep", fmt.Sprintf("L%d.%s", li.ord, name), from.Instrs[len(from.Instrs)-1].Pos(), env.evalBool(cl.E),
 				fmt.Sprintf("loop %d invariant preserved: %s", li.ord, cl.Text), cl.Tags)
+		}
+		for i, cl := range c.loopClauses(li, "step") {
+			name := cl.Name
+			if name == "" {
+				name = fmt.Sprint(i + 1)
+			}
+			senv := c.loopEnv(bst)
+			senv.prev = li.headSt
+			name += via
+			c.oblige(bst, "step", fmt.Sprintf("L%d.%s", li.ord, name), from.Instrs[len(from.Instrs)-1].Pos(), senv.evalBool(cl.E),
+				fmt.Sprintf("loop %d iteration contract: %s", li.ord, cl.Text), cl.Tags)
 		}
 		decs := c.loopClauses(li, "decreases")
 		if len(decs) == 0 {
@@ -575,7 +597,7 @@ func (c *FnCtx) flow(st *State, from, to *ssa.BasicBlock, cond string) {
 		}
 		for i, cl := range decs {
 			v := env.evalInt(cl.E)
-			o := c.oblige(bst, "dec", fmt.Sprintf("L%d", li.ord), token.NoPos, and(le("0", li.variant[i]), lt(v, li.variant[i])),
+			o := c.oblige(bst, "dec", fmt.Sprintf("L%d%s", li.ord, via), token.NoPos, and(le("0", li.variant[i]), lt(v, li.variant[i])),
 				fmt.Sprintf("loop %d variant decreases: %s", li.ord, cl.Text), cl.Tags)
 			if o == nil {
 				continue
@@ -1210,6 +1232,12 @@ func (c *FnCtx) execReturn(st *State, in *ssa.Return) {
 		}
 	}
 	env := &Env{c: c, st: st, old: c.entry, vars: vars, fn: c.fn}
+	if c.fc.Applies != "" && len(in.Results) == 1 && len(c.fn.Params) == 1 {
+		// the function value of this function is axiomatised as the spec predicate: check the body against it
+		want := env.eval(ECall{Fn: c.fc.Applies, Args: []Expr{EIdent{c.fn.Params[0].Name()}}}).(VBool).T
+		got := c.val(st, in.Results[0]).(VBool).T
+		c.oblige(st, "post", "applies@"+c.eng.srcLine(in.Pos()), in.Pos(), eq(got, want), "function computes exactly the spec predicate "+c.fc.Applies, nil)
+	}
 	n := 0
 	for _, cl := range c.fc.Clauses {
 		if cl.Kind != "ensures" {
